@@ -75,6 +75,31 @@ fn fam_dag(_t: Tier) -> BoxedStrategy<Case> {
         .boxed()
 }
 
+/// long dependency chains (14-40 links): written in reverse every link fails once per link behind it, so the number of
+/// failed attempts of one document runs into the hundreds
+fn fam_chains(_t: Tier) -> BoxedStrategy<Case> {
+    (vec(npick(), 1..2), 14usize..41, vec(any::<u8>(), 40), any::<u64>())
+        .prop_map(|(p, len, sel, perm_seed)| {
+            let nodes = build_nodes(&p, true);
+            let mut extras = Vec::new();
+            for k in 0..len {
+                let prev = if k == 0 { id_of(0) } else { format!("x{}", k - 1) };
+                let id = format!("x{k}");
+                let m = sel[k];
+                let v: Vec<(String, String)> = match m % 5 {
+                    0 => vec![("_el".into(), "rect".into()), ("id".into(), id), ("xy".into(), format!("#{prev}|h {}", m % 3)), ("wh".into(), "5".into())],
+                    1 => vec![("_el".into(), "rect".into()), ("id".into(), id), ("xy".into(), format!("#{prev}@br")), ("width".into(), "6".into()), ("height".into(), "3".into())],
+                    2 => vec![("_el".into(), "circle".into()), ("id".into(), id), ("cxy".into(), format!("#{prev}@r {} 0", 3 + m % 4)), ("r".into(), "2".into())],
+                    3 => vec![("_el".into(), "rect".into()), ("id".into(), id), ("xy".into(), format!("#{prev}|v 1")), ("wh".into(), format!("#{prev}"))],
+                    _ => vec![("_el".into(), "rect".into()), ("id".into(), id), ("x".into(), format!("{{{{#{prev}~x2 + 1}}}}")), ("y".into(), "0".into()), ("width".into(), "4".into()), ("height".into(), "4".into())],
+                };
+                extras.push(v);
+            }
+            Case { nodes, extras, negative: vec![], perm_seed }
+        })
+        .boxed()
+}
+
 fn fam_negative(_t: Tier) -> BoxedStrategy<Case> {
     (0u8..12, 2usize..5, any::<u8>(), any::<u64>())
         .prop_map(|(kind, n, sel, perm_seed)| {
@@ -200,7 +225,7 @@ impl Property for C10 {
         "C10"
     }
     fn rule(&self) -> String {
-        "cases = side-effect-free reference DAGs (C09's forms restricted to #id references; every spelling of the referenced geometry: wh vs width/height, xy vs x/y, cxy+r, relative vs absolute) of 2-7 siblings plus referrers that are connectors, surround boxes and expression readers; \
+        "cases = side-effect-free reference DAGs (C09's forms restricted to #id references; every spelling of the referenced geometry: wh vs width/height, xy vs x/y, cxy+r, relative vs absolute) of 2-7 siblings plus referrers that are connectors, surround boxes, <use> instances placed by an anchor and expression readers; dependency chains of 14-40 links (hundreds of failed attempts when written in reverse); \
          for each DAG all n! sibling orders for n <= 5 (exhaustive) and 60 sampled orders above; negative family: unknown ids, 2..4-cycles in every spelling, targets without a bounding box. \
          Oracle (metamorphic): the order in which every reference points backwards is the baseline; if it succeeds every permutation succeeds, yields the same native geometry per id (tolerance 0.0011) and emits the elements in the permuted order; every order of a negative document fails. \
          Non-trivial = at least one permutation contains a forward reference (positive) or the document is from the negative family; distinct by hash of the case."
@@ -210,7 +235,7 @@ impl Property for C10 {
         vec!["documents are side-effect free (no var, random, ^), so sibling order is the only thing that changes between runs".into()]
     }
     fn families(&self, tier: Tier) -> Vec<Family<Case>> {
-        vec![Family::random("dag-permutations", tier.n(6_000, 40_000), fam_dag), Family::random("negative", tier.n(1_600, 6000), fam_negative)]
+        vec![Family::random("dag-permutations", tier.n(6_000, 40_000), fam_dag), Family::random("long-chains", tier.n(150, 1500), fam_chains), Family::random("negative", tier.n(1_600, 6000), fam_negative)]
     }
     fn judge(&self, case: &Case, _strict: bool) -> Verdict {
         let cfg = Cfg::plain();
